@@ -241,6 +241,37 @@ loop:
 	w.Emit(end)
 }
 
+// startShadow: a SECOND handler of the same process frames streams of its own (other data with a few frames in it) for as
+// long as the traced stream runs.  Handlers are independent objects: what another one is doing must not show in the traced
+// one's messages (nothing of the shadow's is judged; a panic in it ends the driver, which the checks report).
+func startShadow(seed int64) func() {
+	stop, done := make(chan struct{}), make(chan struct{})
+	go func() {
+		defer close(done)
+		r := rand.New(rand.NewSource(seed))
+		for {
+			select {
+			case <-stop:
+				return
+			default:
+			}
+			h := handler.New(framerStart, slog.LevelInfo)
+			in, out := make(chan byte, 64), make(chan handler.Message, 64)
+			go h.HandleMessages(in, out)
+			data := gen.Cat(gen.Junk(r, 100+r.Intn(900), 2), gen.Frame(r, 1005, 19, 0), gen.Junk(r, 50+r.Intn(300), 2), []byte{0xd3, 0x55})
+			go func() {
+				for _, b := range data {
+					in <- b
+				}
+				close(in)
+			}()
+			for range out {
+			}
+		}
+	}()
+	return func() { close(stop); <-done }
+}
+
 // blankRuns: other data made only of white space (line breaks after every frame, as a logger or a caster adds them, blanks,
 // tabs, form feed, the UTF-8 non-breaking space and next-line characters) between, before and after frames: data like any other
 func blankRuns(rng *rand.Rand, run func([]byte, string)) {
@@ -583,6 +614,15 @@ func framer(args []string) {
 		}
 
 	case "c02":
+		// two handlers at work at the same time: the traced stream (runs of other data of every length up to a few hundred
+		// bytes around frames) while a shadow handler frames other data of its own
+		for i := 0; i < 12*scale; i++ {
+			stopShadow := startShadow(rng.Int63())
+			s := gen.Cat(gen.Junk(rng, 1+rng.Intn(400), 1), gen.Frame(rng, gen.TypeClass(rng, i), 1+rng.Intn(40), 0),
+				gen.Junk(rng, 1+rng.Intn(400), 0), gen.Frame(rng, 1006, 21, 0), gen.Junk(rng, 1+rng.Intn(60), 1))
+			run(s, "a second handler frames another stream at the same time")
+			stopShadow()
+		}
 		// every prefix of structured streams
 		for i := 0; i < 2*scale; i++ {
 			s := gen.Cat(gen.Junk(rng, 2, 1), gen.Frame(rng, gen.TypeClass(rng, i), 1+rng.Intn(6), 2),
